@@ -27,28 +27,31 @@ VoteNum(p) == LET n == Len(p)
                           ELSE S(k - 1) + (p[k][2] - p[1][2]) * (p[n][1] - p[1][1]) - (p[n][2] - p[1][2]) * (p[k][1] - p[1][1])
               IN S(n)
 Clockwise(p) == VoteNum(p) > 0
-\* numerator of the difference curve at k over the common denominator DX*DY
-DdNum(p, k, inc, cw) ==
-    LET X == (p[k][1] - MinOf(Xs(p))) * DY(p)
-        Y == (p[k][2] - MinOf(Ys(p))) * DX(p)
-    IN IF ~inc /\ cw THEN X + Y
-       ELSE IF ~inc /\ ~cw THEN DX(p) * DY(p) - (X + Y)
-       ELSE IF inc /\ cw THEN Y - X
-       ELSE AbsI(Y - X)
-Peaks(p, inc, cw) == {k \in 2..(Len(p) - 1) : DdNum(p, k, inc, cw) > DdNum(p, k - 1, inc, cw)
-                                              /\ DdNum(p, k, inc, cw) > DdNum(p, k + 1, inc, cw)}
+\* numerators of the difference curve over the common denominator DX*DY, as one sequence (computed once per call)
+DdSeq(p, inc, cw) ==
+    LET xm == MinOf(Xs(p))  ym == MinOf(Ys(p))  dx == DX(p)  dy == DY(p)
+    IN [k \in 1..Len(p) |->
+          LET X == (p[k][1] - xm) * dy
+              Y == (p[k][2] - ym) * dx
+          IN IF ~inc /\ cw THEN X + Y
+             ELSE IF ~inc /\ ~cw THEN dx * dy - (X + Y)
+             ELSE IF inc /\ cw THEN Y - X
+             ELSE AbsI(Y - X)]
+DdNum(p, k, inc, cw) == DdSeq(p, inc, cw)[k]
+PeaksOf(dd) == {k \in 2..(Len(dd) - 1) : dd[k] > dd[k - 1] /\ dd[k] > dd[k + 1]}
+Peaks(p, inc, cw) == PeaksOf(DdSeq(p, inc, cw))
 \* 0-based index of the highest peak (first one on equal heights), -1 when there is no peak
 HighestPeak(p, inc, cw) ==
-    LET P == Peaks(p, inc, cw)
+    LET dd == DdSeq(p, inc, cw)
+        P == PeaksOf(dd)
     IN IF P = {} THEN -1
-       ELSE (CHOOSE k \in P : (\A o \in P : DdNum(p, o, inc, cw) <= DdNum(p, k, inc, cw))
-                              /\ (\A o \in P : DdNum(p, o, inc, cw) = DdNum(p, k, inc, cw) => k <= o)) - 1
+       ELSE (CHOOSE k \in P : (\A o \in P : dd[o] <= dd[k]) /\ (\A o \in P : dd[o] = dd[k] => k <= o)) - 1
 KneedleKnee(p) == HighestPeak(p, Increasing(p), Clockwise(p))
 \* all peaks of both rotations (kneedle.knees with PeakDetection.All), 0-based, as a set
 KneedleAll(p) == {k - 1 : k \in Peaks(p, Increasing(p), TRUE) \cup Peaks(p, Increasing(p), FALSE)}
 \* cases whose binary64 evaluation is not pinned: an exact tie between neighbours / between peak heights / in the vote
-TiedNeighbours(p, inc, cw) == \E k \in 1..(Len(p) - 1) : DdNum(p, k, inc, cw) = DdNum(p, k + 1, inc, cw)
-TiedPeaks(p, inc, cw) == \E a \in Peaks(p, inc, cw), b \in Peaks(p, inc, cw) : a # b /\ DdNum(p, a, inc, cw) = DdNum(p, b, inc, cw)
+TiedNeighbours(p, inc, cw) == LET dd == DdSeq(p, inc, cw) IN \E k \in 1..(Len(p) - 1) : dd[k] = dd[k + 1]
+TiedPeaks(p, inc, cw) == LET dd == DdSeq(p, inc, cw) IN \E a \in PeaksOf(dd), b \in PeaksOf(dd) : a # b /\ dd[a] = dd[b]
 AmbiguousKnee(p) == VoteNum(p) = 0 \/ TiedNeighbours(p, Increasing(p), Clockwise(p)) \/ TiedPeaks(p, Increasing(p), Clockwise(p))
 AmbiguousAll(p) == DYraw(p) = 0 \/ TiedNeighbours(p, Increasing(p), TRUE) \/ TiedNeighbours(p, Increasing(p), FALSE)
 =============================================================================
